@@ -43,7 +43,7 @@ class Frame:
 class Interp:
     def __init__(self, program, ctx=None):
         self.program = program
-        self.ctx = ctx if ctx is not None else Ctx(program)
+        self.ctx = ctx if ctx is not None else Ctx(program, nested=True)
         from . import builtins_
         self.builtins = builtins_.make_builtins(self)
         self.bi = builtins_
